@@ -86,8 +86,10 @@ func verbatimStream(r *Run) {
 		switch k % 5 {
 		case 0: // raw body verbatim — the body must not contain an endraw tag, nor a `{{` that could pair with a later `}}`
 			b := body(5, "endraw")
-			// the tokenizer may pair a `{{` inside the body with a `}}` after the endraw tag (a fact about the tokenizer,
-			// not the raw block): keep `post` free of closers, and the body free of an unclosed opener at its end
+			// the tokenizer may pair a `{{` inside the body with a `}}` after the endraw tag. That is the recorded deviation
+			// from C05 (known_findings.json K-C05-raw-unclosed-delimiter, DESIGN 7.1b), exercised by the fixed inputs of
+			// verbatimUnclosedDelimiterFamily; the random bodies stay clear of it: `post` free of closers, openers and
+			// closers of the body balanced in number (a body balanced in number but not in order is classified by rawClause)
 			post = strings.NewReplacer("}", "", "%", "").Replace(post)
 			if strings.Count(b, "{{") != strings.Count(b, "}}") || strings.Count(b, "{%") != strings.Count(b, "%}") {
 				b = strings.NewReplacer("{{", "", "}}", "", "{%", "", "%}", "").Replace(b)
@@ -119,7 +121,7 @@ func verbatimStream(r *Run) {
 			var src, want strings.Builder
 			safe := func(t string) string { return strings.NewReplacer("}", "", "%", "", "{", "").Replace(t) }
 			// bodies of complete tokens only: with several blocks in one template a lone `{{` (or `{{}}`, which is no
-			// object) would pair with a `}}` of a later block, a fact about the tokenizer and not about raw/comment
+			// object) would pair with a `}}` of a later block - the recorded deviation K-C05-* again (DESIGN 7.1b)
 			var whole []string
 			for _, b := range tagLikeBits {
 				nd := strings.Count(b, "{{") + strings.Count(b, "}}") + strings.Count(b, "{%") + strings.Count(b, "%}")
